@@ -10,7 +10,7 @@ vs absent keys, full containers, slot positions.  It is not an oracle.
 """
 import random
 
-CAPS = [0, 1, 2, 3, 4, 8]
+CAPS = [0, 1, 2, 3, 4, 8]   # (17 is supported by the harness too: used by the large-container histories)
 
 
 class Sim:
@@ -587,6 +587,15 @@ def suite(prop, rng, tier):
             cases.append(rand_history(rng, rng.randint(8, 40), MENU_ALL_SAFE, adv=1, seed=rng.getrandbits(48)).line())
     elif prop == "C18":
         rnd(MENU_MAP_CORE + scale(MENU_MAP_UNCHECKED, 3), N(300, 5000), (10, 40))
+        # insert_unchecked under a MISBEHAVING == (non-reflexive, always / never equal, alternating): its precondition
+        # "the map is not full" does not depend on ==, so histories with fewer insertions than slots stay inside it
+        # whatever == answers, and there it must behave exactly like insert (the model's any-environment theorems)
+        menu_u = [(5, lambda g: g.ins(m_reg(g), code=13)), (2, lambda g: g.ins(m_reg(g), code=10)),
+                  (3, lambda g: g.lookup(m_reg(g))), (2, lambda g: g.rem(m_reg(g)))]
+        for _ in range(N(160, 2000)):
+            cap = rng.choice([8, 8, 17])
+            cases.append(rand_history(rng, rng.randint(3, cap - 1), menu_u, adv=1, seed=rng.getrandbits(48),
+                                      caps=[cap] * 4, ncls=rng.choice([3, 6, 12])).line())
     elif prop == "C19":
         rnd(MENU_MAP_CORE + scale(MENU_MAP_FMT, 5) + scale(MENU_MAP_ITER, 1.5) + MENU_SET_CORE + scale(MENU_SET_FMT, 5)
             + scale([(1, lambda g: g.s_alg(a=2, b=3))], 3), N(300, 4000), (8, 30))
@@ -594,6 +603,17 @@ def suite(prop, rng, tier):
         rnd(MENU_MAP_CORE + scale(MENU_MAP_SERDE, 6) + MENU_SET_CORE + scale(MENU_SET_SERDE, 6), N(250, 4000), (8, 30))
     else:
         raise SystemExit("unknown property " + prop)
+    # large containers: more than 8 live elements, hits at slot positions >= 8, an odd capacity that is no power of
+    # two (block-wise or masked code has a remainder there), pairs of registers of different capacity
+    for caps in ([17, 17, 17, 17], [17, 8, 17, 4]):
+        # (C04 enumerates EVERY fault position of every base history: a few shorter ones there)
+        for _ in range(N(2, 12) if prop == "C04" else N(12, 150)):
+            if prop == "C17":
+                cases.append(rand_history(rng, rng.randint(40, 90), MENU_ALL_SAFE, adv=1, seed=rng.getrandbits(48),
+                                          caps=list(caps), ncls=24).line())
+            else:
+                cases.append(rand_history(rng, rng.randint(25, 45) if prop == "C04" else rng.randint(40, 90), MENU_ALL,
+                                          caps=list(caps), ncls=24).line())
     if prop not in ("C02", "C04", "C05", "C06"):
         # every suite also carries a slice of whole-API histories: the theorems of every property rest on the
         # same model, so a correspondence break anywhere concerns them all (those four suites draw from MENU_ALL already)
